@@ -5,6 +5,7 @@ import Soa.Lemmas.Loops
 import Soa.Lemmas.SpecRetain
 import Soa.Model.Pinned
 import Soa.Extracted.Bodies
+import Soa.Lemmas.SkelTie
 /-!
 # C01 — the SoA vector is observationally a `Vec<T>`
 
@@ -425,6 +426,71 @@ example : exC.lock 2 ∧ exE.lock 1 ∧ exC.same exE := by
   simp [exC, exE, Cols.lock, Cols.same, Cols.same.sameL]
 example : (Model.insert false exC 1 exE).st.rows = (Spec.insert false exC.rows 1 exE.rows).st :=
   (insert false 1 (n := 2) (by simp [exC, Cols.lock]) (by simp [exE, Cols.lock])
+    (by simp [exC, exE, Cols.same, Cols.same.sameL])).st
+
+
+/-! ## the same, for the methods *as extracted from /repo on this run*
+
+`Sk.runElem dr Extracted.sk_… c args` is the outcome computed from the template the translator
+recovered from the generated code (validated against the real generators on eight struct
+shapes).  These are the statements about the code itself; the hand-written `Model.*`
+functions are intermediate. -/
+
+/-- outcome of the extracted method refines the std operation -/
+def RefinesX (c : Cols) (o : Option Model.Out) (s : Spec.Out) : Prop := ∃ m, o = some m ∧ Refines c m s
+
+open Soa.Sk Soa.Extracted in
+theorem push_extracted (dr : Bool) (hc : c.lock n) (he : e.lock 1) (hs : c.same e) :
+    RefinesX c (runElem dr sk_PVec_push c [.elem e]) (Spec.push c.rows e.rows) :=
+  ⟨_, push_tie dr c e, push hc he hs⟩
+
+open Soa.Sk Soa.Extracted in
+theorem insert_extracted (dr : Bool) (i : Nat) (hc : c.lock n) (he : e.lock 1) (hs : c.same e) :
+    RefinesX c (runElem dr sk_PVec_insert c [.nat i, .elem e]) (Spec.insert dr c.rows i e.rows) :=
+  ⟨_, insert_tie dr i hc he hs, insert dr i hc he hs⟩
+
+open Soa.Sk Soa.Extracted in
+theorem replace_extracted (dr : Bool) (i : Nat) (hc : c.lock n) (he : e.lock 1) (hs : c.same e) :
+    RefinesX c (runElem dr sk_PVec_replace c [.nat i, .elem e]) (Spec.replace dr c.rows i e.rows) :=
+  ⟨_, replace_tie dr i hc he hs, replace dr i hc he hs⟩
+
+open Soa.Sk Soa.Extracted in
+theorem remove_extracted (dr : Bool) (i : Nat) (hc : c.lock n) :
+    RefinesX c (runElem dr sk_PVec_remove c [.nat i]) (Spec.remove c.rows i) :=
+  ⟨_, remove_tie dr i c, remove i hc⟩
+
+open Soa.Sk Soa.Extracted in
+theorem swapRemove_extracted (dr : Bool) (i : Nat) (hc : c.lock n) :
+    RefinesX c (runElem dr sk_PVec_swap_remove c [.nat i]) (Spec.swapRemove c.rows i) :=
+  ⟨_, swap_remove_tie dr i c, swapRemove i hc⟩
+
+open Soa.Sk Soa.Extracted in
+theorem pop_extracted (dr : Bool) (hc : c.lock n) :
+    RefinesX c (runElem dr sk_PVec_pop c []) (Spec.pop c.rows) :=
+  ⟨_, pop_tie dr c, pop hc⟩
+
+open Soa.Sk Soa.Extracted in
+theorem splitOff_extracted (dr : Bool) (i : Nat) (hc : c.lock n) :
+    RefinesX c (runElem dr sk_PVec_split_off c [.nat i]) (Spec.splitOff c.rows i) :=
+  ⟨_, split_off_tie dr i c, splitOff i hc⟩
+
+open Soa.Sk Soa.Extracted in
+theorem append_extracted (dr : Bool) {d : Cols} {k : Nat} (hc : c.lock n) (hd : d.lock k) (hs : c.same d) :
+    ∃ m, runElem dr sk_PVec_append c [.cont d] = some m ∧ m = Model.append c d :=
+  ⟨_, append_tie dr c d, rfl⟩
+
+open Soa.Sk Soa.Extracted in
+theorem toVec_extracted (hc : c.lock n) :
+    RefinesX c (runToVec sk_PSlice_a_to_vec c) (Spec.toVec c.rows) ∧
+    RefinesX c (runToVec sk_PSliceMut_a_to_vec c) (Spec.toVec c.rows) :=
+  ⟨⟨_, (to_vec_tie c).1, toVec hc⟩, ⟨_, (to_vec_tie c).2, toVec hc⟩⟩
+
+/-- non-vacuity: the extracted `insert` on the concrete container really computes the std result -/
+example : ((Soa.Sk.runElem false Soa.Extracted.sk_PVec_insert exC [.nat 1, .elem exE]).map (·.st.rows)) =
+    some (Spec.insert false exC.rows 1 exE.rows).st := by
+  rw [Soa.Sk.insert_tie false 1 (n := 2) (by simp [exC, Cols.lock]) (by simp [exE, Cols.lock])
+    (by simp [exC, exE, Cols.same, Cols.same.sameL])]
+  exact congrArg some (insert false 1 (n := 2) (by simp [exC, Cols.lock]) (by simp [exE, Cols.lock])
     (by simp [exC, exE, Cols.same, Cols.same.sameL])).st
 
 /-- **text pin**: the generated functions this property's hand-written model describes have, in
